@@ -171,3 +171,143 @@ have -> : gx * c = gx * (half * (c + c)) by rewrite mulrDr -mulrDl halfP mul1r.
 rewrite HN; ring.
 Qed.
 End Backward.
+
+(* ---------------------------------------------------------------------------------------------------------------
+   The same backward pass when kept eigenvalues COINCIDE (idx_degen is not None in the code).  Column-wise statement
+   for k kept columns x_i (M-orthonormal), a degeneracy map `mask` on the kept columns that is reflexive, symmetric and
+   only relates columns with EQUAL eigenvalues, and cotangents g_i meeting the requirement the code tests in debug mode
+   (X^T G symmetric on the masked pairs: the loss does not depend on the basis inside a degenerate subspace):
+       B  = G - M X (D o X^T G)              _ortho(grad_evecs, evecs, D, M, mright=False)
+       (A - e_i M) v_i = - b_i               solve(A, -B, evals, M)
+       W  = V - X (D o X^T M V)              _ortho(gevecs, evecs, D, M, mright=True)
+       accA = X diag(ge) + W,   accM = - X diag(ge e) - W diag(e) - 1/2 X (D o X^T G)
+   reproduce  sum_i <g_i, dx_i> + ge_i de_i  for EVERY differentiable choice of the basis inside the degenerate
+   subspaces (x_i and e_i are only assumed to satisfy the eigen-equations along the path) and every tangent dA, dM.
+   --------------------------------------------------------------------------------------------------------------- *)
+Section DotSum.
+Variable R : comRingType.
+Variable n : nat.
+Lemma dot0l (v : 'cV[R]_n) : dot 0 v = 0.
+Proof. by rewrite /dot trmx0 mul0mx mxtrace0. Qed.
+Lemma dot_suml (I : finType) (f : I -> 'cV[R]_n) (v : 'cV[R]_n) : dot (\sum_j f j) v = \sum_j dot (f j) v.
+Proof. by elim/big_rec2: _ => [|j y u _ <-]; rewrite ?dot0l ?dotDl. Qed.
+End DotSum.
+
+Section BackwardDegenerate.
+Variable R : comRingType.
+Variable D : derivation R.
+Variables n k : nat.
+Local Notation d := (dmx D).
+Variables (A M : 'M[R]_n) (x : 'I_k -> 'cV[R]_n) (e : 'I_k -> R).
+Hypothesis HA : A^T = A.
+Hypothesis HM : M^T = M.
+Hypothesis Heig : forall i, A *m x i = e i *: (M *m x i).
+Hypothesis Horth : forall i j, dot (x i) (M *m x j) = (i == j)%:R.
+Variable half : R.
+Hypothesis halfP : half + half = 1.
+Variable mask : rel 'I_k.
+Hypothesis mask_refl : forall i, mask i i.
+Hypothesis mask_sym : forall i j, mask i j = mask j i.
+Hypothesis Hdeg : forall i j, mask i j -> e i = e j.
+Variables (g v : 'I_k -> 'cV[R]_n) (ge : 'I_k -> R).
+Hypothesis Hreq : forall i j, mask i j -> dot (x i) (g j) = dot (x j) (g i).
+
+Let c (j i : 'I_k) : R := if mask j i then dot (x j) (g i) else 0.        (* (D o X^T G)_ji *)
+Let b i := g i - \sum_j c j i *: (M *m x j).
+Hypothesis Hsolve : forall i, A *m v i - e i *: (M *m v i) = - b i.
+Let mv (j i : 'I_k) : R := if mask j i then dot (x j) (M *m v i) else 0.   (* (D o X^T M V)_ji *)
+Let w i := v i - \sum_j mv j i *: x j.
+Let accA i := ge i *: x i + w i.
+Let accM i := - (ge i * e i) *: x i - e i *: w i - half *: \sum_j c j i *: x j.
+
+Lemma c_sym j i : c j i = c i j.
+Proof. by rewrite /c mask_sym; case Hij: (mask i j) => //; rewrite (Hreq Hij). Qed.
+
+Lemma dotMsym (u t : 'cV[R]_n) : dot u (M *m t) = dot t (M *m u).
+Proof. by rewrite dot_mulr HM dotC. Qed.
+
+Lemma sum_indicator (f : 'I_k -> R) i : \sum_j f j * (j == i)%:R = f i.
+Proof.
+rewrite (bigD1 i) //= eqxx mulr1 big1 ?addr0 // => j Hj.
+by rewrite (negbTE Hj) mulr0.
+Qed.
+
+Lemma wd_M_orth i : dot (w i) (M *m x i) = 0.
+Proof.
+rewrite /w dotBl dot_suml.
+rewrite (eq_bigr (fun j => mv j i * (j == i)%:R)); last by move=> j _; rewrite dotZl Horth.
+by rewrite sum_indicator /mv mask_refl dotMsym subrr.
+Qed.
+
+Lemma wd_shift i (u : 'cV[R]_n) : dot (w i) (A *m u) - e i * dot (w i) (M *m u) = - dot (b i) u.
+Proof.
+have Hv : dot (v i) (A *m u) - e i * dot (v i) (M *m u) = - dot (b i) u.
+  by rewrite !dot_mulr HA HM -dotZl -dotBl Hsolve dotNl.
+rewrite -Hv /w !dotBl !dot_suml.
+have Hz : \sum_j dot (mv j i *: x j) (A *m u) = e i * \sum_j dot (mv j i *: x j) (M *m u).
+  rewrite mulr_sumr; apply: eq_bigr => j _; rewrite !dotZl (left_eig HA HM (Heig j)) /mv.
+  case Hji: (mask j i); last by rewrite !mul0r mulr0.
+  by rewrite (Hdeg Hji); set p := dot _ _; set q := dot _ _; ring.
+rewrite Hz; set p := dot _ _; set q := \sum_j _; set r := dot _ _; ring.
+Qed.
+
+(* tangent of the M-orthonormality of two kept columns *)
+Lemma orth_tangent j i :
+  dot (x j) (M *m d (x i)) + dot (x i) (M *m d (x j)) = - dot (x j) (d M *m x i).
+Proof.
+have := congr1 D (Horth j i); rewrite der_nat d_dot dmxM dotDr.
+have -> : dot (d (x j)) (M *m x i) = dot (x i) (M *m d (x j)) by rewrite dotMsym.
+set a := dot (x i) _; set t := dot (x j) (d M *m x i); set s := dot (x j) (M *m d (x i)) => H.
+have -> : s + a = (a + (t + s)) - t by ring.
+by rewrite H; ring.
+Qed.
+
+(* one column: everything but the coupling through the normalisation *)
+Lemma column_identity i :
+  dot (g i) (d (x i)) + ge i * D (e i) =
+  dot (accA i) (d A *m x i) + dot (accM i) (d M *m x i)
+  + (\sum_j c j i * dot (x j) (M *m d (x i)) + half * \sum_j c j i * dot (x j) (d M *m x i)).
+Proof.
+have Hn : dot (x i) (M *m x i) = 1 by rewrite Horth eqxx.
+set dx := d (x i); set dAx := d A *m x i; set dMx := d M *m x i.
+have HF : D (e i) = dot (x i) dAx - e i * dot (x i) dMx := eigval_tangent D HA HM (Heig i) Hn.
+have HT := eigvec_tangent D (Heig i).
+have Hw : dot (w i) dAx - e i * dot (w i) dMx = dot (b i) dx.
+  have := congr1 (dot (w i)) HT.
+  rewrite dotBr dotZr wd_shift dotDr dotNr dotBr !dotZr wd_M_orth mulr0 addr0 -/dx -/dAx -/dMx.
+  by move/eqP; rewrite eqr_opp => /eqP ->.
+have Hb : dot (b i) dx = dot (g i) dx - \sum_j c j i * dot (x j) (M *m dx).
+  rewrite /b dotBl dot_suml; congr (_ - _); apply: eq_bigr => j _.
+  by rewrite dotZl dotC dotMsym.
+have EA : dot (accA i) dAx = ge i * dot (x i) dAx + dot (w i) dAx by rewrite /accA dotDl dotZl.
+have EM : dot (accM i) dMx = - (ge i * e i * dot (x i) dMx) - e i * dot (w i) dMx
+                             - half * \sum_j c j i * dot (x j) dMx.
+  rewrite /accM 2!dotBl !dotZl dot_suml mulNr.
+  by congr (_ - _ - _ * _); apply: eq_bigr => j _; rewrite dotZl.
+rewrite EA EM HF.
+have -> : dot (g i) dx = dot (b i) dx + \sum_j c j i * dot (x j) (M *m dx) by rewrite Hb subrK.
+rewrite -Hw.
+set a1 := dot (x i) dAx; set a2 := dot (x i) dMx; set w1 := dot (w i) dAx; set w2 := dot (w i) dMx.
+set S := \sum_j _; set T := \sum_j _; ring.
+Qed.
+
+Theorem eigpairs_backward_adjoint_degenerate :
+  \sum_i (dot (g i) (d (x i)) + ge i * D (e i)) =
+  \sum_i (dot (accA i) (d A *m x i) + dot (accM i) (d M *m x i)).
+Proof.
+rewrite (eq_bigr _ (fun i _ => column_identity i)) big_split /=.
+rewrite -[RHS]addr0; congr (_ + _).
+rewrite big_split /= -mulr_sumr.
+set S := \sum_i \sum_j c j i * dot (x j) (M *m d (x i)).
+set U := \sum_i \sum_j c j i * dot (x j) (d M *m x i).
+have HS : S + S = - U.
+  have -> : S + S = S + \sum_i \sum_j c j i * dot (x i) (M *m d (x j)).
+    congr (_ + _); rewrite /S exchange_big /=; apply: eq_bigr => i _; apply: eq_bigr => j _.
+    by rewrite c_sym.
+  rewrite /S -big_split /= /U -sumrN; apply: eq_bigr => i _.
+  rewrite -big_split /= -sumrN; apply: eq_bigr => j _.
+  by rewrite -mulrDr orth_tangent mulrN.
+have -> : S = half * (S + S) by rewrite mulrDr -mulrDl halfP mul1r.
+by rewrite HS mulrN addNr.
+Qed.
+End BackwardDegenerate.
